@@ -339,4 +339,48 @@ theorem chdirPack_not_mem_body (v : Variant) (c : Cfg) : c.packDir = false → S
   · have := chdirPack_not_mem_tarSites c.entries 0
     simp_all
 
+/-- the name handed to `unlink` designates the output file: it is absolute, or was made absolute, or the process
+    never left the directory it started in -/
+def Safe (t : Trace) : Prop := t.absName = true ∨ t.cwd = .start
+
+theorem nameResolves_of_safe (c : Cfg) (t : Trace) : Safe t → nameResolves c t = true := by
+  intro h
+  unfold nameResolves
+  rcases h with h | h <;> simp [h]
+
+/-- a phase without `chdir` keeps the name valid -/
+theorem safe_phase (v : Variant) (c : Cfg) (sites : List Site) (fs : List Bool) (t : Trace) (ok : Bool) (fs' : List Bool)
+    (t' : Trace) (hm : Site.chdirPack ∉ sites) (h : runSites v c 0 sites fs t = (ok, fs', t')) : Safe t → Safe t' := by
+  intro hs
+  rcases hs with hs | hs
+  · exact Or.inl (runSites_absName v c _ _ _ _ _ _ _ h hs)
+  · exact Or.inr (by rw [runSites_cwd v c _ _ _ _ _ _ _ hm h]; exact hs)
+
+/-- the body of the *repaired* `main`: the output name is made absolute before `pack_files` changes directory -/
+theorem safe_body_fixed (c : Cfg) (fs : List Bool) (t : Trace) (ok : Bool) (fs' : List Bool) (t' : Trace)
+    (h : runSites .fixed c 0 (bodySites .fixed c) fs t = (ok, fs', t')) : Safe t → Safe t' := by
+  intro hs
+  cases hp : c.packDir with
+  | false => exact safe_phase _ _ _ _ _ _ _ _ (chdirPack_not_mem_body _ _ hp) h hs
+  | true =>
+    cases ht : c.tool with
+    | tar2sqfs =>
+      refine safe_phase _ _ _ _ _ _ _ _ ?_ h hs
+      have := chdirPack_not_mem_tarSites c.entries 0
+      simp [bodySites, ht, this]
+    | gensquashfs =>
+      simp only [bodySites, ht, hp, Variant.fixed, Bool.and_self, if_true, List.cons_append,
+        List.nil_append] at h
+      simp only [runSites] at h
+      split at h
+      · -- realpath failed: `goto out` from where the process started
+        simp only [reaction] at h
+        simp only [Prod.mk.injEq] at h
+        rw [← h.2.2]
+        rcases hs with hs | hs
+        · exact Or.inl hs
+        · exact Or.inr hs
+      · exact Or.inl (runSites_absName _ _ _ _ _ _ _ _ _ h (by simp [effect]))
+
+
 end Sqfs.FailStop
